@@ -468,6 +468,35 @@ func c19Res(ok string, err error) string {
 	return VC("Ok", ok)
 }
 
+// c19Scramble overwrites, in place, everything reachable from a descriptor the library returned
+func c19Scramble(d *types.EntityDescriptor) {
+	if d == nil {
+		return
+	}
+	d.EntityID = "scrambled"
+	if sd := d.SPSSODescriptor; sd != nil {
+		for i := range sd.KeyDescriptors {
+			kd := &sd.KeyDescriptors[i]
+			kd.Use = "scrambled"
+			for j := range kd.EncryptionMethods {
+				kd.EncryptionMethods[j].Algorithm = "http://www.w3.org/2001/04/xmlenc#tripledes-cbc"
+			}
+			for j := range kd.KeyInfo.X509Data.X509Certificates {
+				kd.KeyInfo.X509Data.X509Certificates[j].Data = "c2NyYW1ibGVk"
+			}
+		}
+		for i := range sd.SingleLogoutServices {
+			sd.SingleLogoutServices[i].Location = "https://scrambled.example.net/slo"
+		}
+		for i := range sd.AssertionConsumerServices {
+			sd.AssertionConsumerServices[i].Location = "https://scrambled.example.net/acs"
+		}
+		for i := range sd.NameIDFormats {
+			sd.NameIDFormats[i] = "scrambled"
+		}
+	}
+}
+
 func c19Catch(f func()) (p interface{}) {
 	defer func() { p = recover() }()
 	f()
@@ -817,6 +846,27 @@ func runC19(c *Ctx, n int) {
 			mdsVal = VC("Err", c19ErrVal(mdsErr))
 		} else {
 			mdsVal = VC("Ok", m.edVal(mds))
+		}
+		// a returned descriptor is the caller's: editing it in place (an application adding its own methods, contacts,
+		// endpoints before serving it) must not change what the NEXT call publishes
+		for _, d := range []*types.EntityDescriptor{md, mds} {
+			c19Scramble(d)
+		}
+		var md2, mds2 *types.EntityDescriptor
+		var md2Err, mds2Err error
+		c19Catch(func() { md2, md2Err = sp.Metadata() })
+		c19Catch(func() { mds2, mds2Err = sp.MetadataWithSLO(k.hours) })
+		if mdErr == nil && md2Err == nil && md2 != nil && VC("Ok", m.edVal(md2)) != mdVal {
+			c.Violate("spec", "isolation:metadata-after-edit", "Metadata() publishes something else after the descriptor returned by the previous call was edited in place by the caller (state shared between results)", k.replay())
+		}
+		if mdsErr == nil && mds2Err == nil && mds2 != nil && VC("Ok", m.edVal(mds2)) != mdsVal {
+			c.Violate("spec", "isolation:metadata-after-edit", "MetadataWithSLO() publishes something else after the descriptor returned by the previous call was edited in place by the caller (state shared between results)", k.replay())
+		}
+		if mdErr == nil && md2Err == nil && md2 != nil {
+			md = md2 // the checks below look at a descriptor nobody edited
+		}
+		if mdsErr == nil && mds2Err == nil && mds2 != nil {
+			mds = mds2
 		}
 		encKeyVal := m.storeVal(sp.GetEncryptionKey())
 		signKeyVal := m.storeVal(sp.GetSigningKey())
